@@ -112,3 +112,19 @@ Proof.
   unfold wf_line, word, blank, dashes, starts, ends, clean, not_pad. cbn.
   repeat split; try (right; reflexivity); repeat constructor; auto.
 Qed.
+
+(* the action list of a line: parse_action<k> returns exactly the k-th comma separated action - for any number of
+   actions, any action length and any blank / tab padding around it; only the k-th part has to be a padded token, the
+   others are arbitrary comma-free texts (the do-while of the library is transcribed with fuel: the fuel the
+   transcription uses is shown to suffice for every list) *)
+Theorem C14_parse_action_exact : forall parts k b w b',
+  nth_error parts k = Some (b ++ w ++ b') -> blank b -> blank b' -> starts w -> ends w ->
+  Forall comma_free parts -> size (join_commas parts) < npos ->
+  parse_action k (join_commas parts) = w.
+Proof. exact parse_action_exact. Qed.
+Print Assumptions C14_parse_action_exact.
+
+(* " log ,stop_playback,  notify " : the second action *)
+Example C14_parse_action_example :
+  parse_action 1 (join_commas [[32;108;111;103;32]; [115;116;111;112]; [32;32;110;111;116;105;102;121;32]]%nat) = [115;116;111;112]%nat.
+Proof. vm_compute. reflexivity. Qed.
